@@ -14,20 +14,24 @@ import (
 )
 
 type Solver struct {
-	name    string
-	cmd     *exec.Cmd
-	in      io.WriteCloser
-	out     *bufio.Reader
-	decl    map[string]*Term
-	declOrd []string
-	Queries int
-	Sat     int
-	Unsat   int
-	Unknown int
-	Time    time.Duration
-	log     io.Writer
-	timeout int // ms
-	dead    bool
+	name      string
+	cmd       *exec.Cmd
+	in        io.WriteCloser
+	w         *bufio.Writer
+	out       *bufio.Reader
+	decl      map[string]*Term
+	declOrd   []string
+	Queries   int
+	Sat       int
+	Unsat     int
+	Unknown   int
+	Time      time.Duration
+	log       io.Writer
+	timeout   int // ms
+	dead      bool
+	inited    bool
+	hardReset bool
+	resets    int
 }
 
 func NewSolver(kind string, timeoutMs int) (*Solver, error) {
@@ -55,7 +59,7 @@ func NewSolver(kind string, timeoutMs int) (*Solver, error) {
 	if err := cmd.Start(); err != nil {
 		return nil, err
 	}
-	s := &Solver{name: kind, cmd: cmd, in: in, out: bufio.NewReaderSize(out, 1<<16), timeout: timeoutMs}
+	s := &Solver{name: kind, cmd: cmd, in: in, w: bufio.NewWriterSize(in, 1<<16), out: bufio.NewReaderSize(out, 1<<16), timeout: timeoutMs}
 	if f := os.Getenv("GOSYM_SMTLOG"); f != "" {
 		lf, _ := os.OpenFile(f, os.O_CREATE|os.O_WRONLY|os.O_APPEND, 0644)
 		s.log = lf
@@ -68,13 +72,21 @@ func (s *Solver) send(line string) {
 	if s.log != nil {
 		fmt.Fprintln(s.log, line)
 	}
-	if _, err := io.WriteString(s.in, line+"\n"); err != nil {
+	if _, err := s.w.WriteString(line); err != nil {
+		s.dead = true
+	}
+	s.w.WriteByte('\n')
+}
+
+func (s *Solver) flush() {
+	if err := s.w.Flush(); err != nil {
 		s.dead = true
 	}
 }
 
 func (s *Solver) Close() {
 	s.send("(exit)")
+	s.flush()
 	s.in.Close()
 	done := make(chan struct{})
 	go func() { s.cmd.Wait(); close(done) }()
@@ -87,13 +99,22 @@ func (s *Solver) Close() {
 
 // Reset clears all assertions and declarations.
 func (s *Solver) Reset() {
-	s.send("(reset)")
-	s.send("(set-option :print-success false)")
-	s.send("(set-option :produce-models true)")
-	if s.name != "cvc5" {
-		s.send(fmt.Sprintf("(set-option :timeout %d)", s.timeout))
+	s.resets++
+	if s.inited && !s.hardReset && s.resets%256 != 0 {
+		// cheap reset: drop the outermost scope (declarations included)
+		s.send("(pop 1)")
+		s.send("(push 1)")
 	} else {
-		s.send("(set-logic ALL)")
+		s.send("(reset)")
+		s.send("(set-option :print-success false)")
+		s.send("(set-option :produce-models true)")
+		if s.name != "cvc5" {
+			s.send(fmt.Sprintf("(set-option :timeout %d)", s.timeout))
+		} else {
+			s.send("(set-logic ALL)")
+		}
+		s.send("(push 1)")
+		s.inited = true
 	}
 	s.decl = map[string]*Term{}
 	s.declOrd = nil
@@ -192,6 +213,7 @@ func (s *Solver) Check(extra *Term, wantModel bool) (string, Model) {
 		s.send("(assert " + extra.SMT() + ")")
 	}
 	s.send("(check-sat)")
+	s.flush()
 	res, err := s.readSexp()
 	for err == nil && strings.HasPrefix(res, "(error") {
 		fmt.Fprintln(os.Stderr, "SOLVER ERROR:", res)
@@ -233,6 +255,7 @@ func (s *Solver) getModel() Model {
 	}
 	sb.WriteString("))")
 	s.send(sb.String())
+	s.flush()
 	out, err := s.readSexp()
 	if err != nil || strings.HasPrefix(out, "(error") {
 		fmt.Fprintln(os.Stderr, "SOLVER get-value error:", out)
